@@ -6,6 +6,7 @@
    its member tuple (VObj l = the list std::tie(...) returns).  What the model cannot contain is a Section
    variable: the leaf type, std::hash on leaves (h), == and < on leaves (leqb, lltb). *)
 From Coq Require Import List Bool Arith NArith.
+From Nitro Require Import Base.ListX.
 Import ListNotations.
 Local Open Scope list_scope.
 Local Open Scope N_scope.
@@ -133,6 +134,23 @@ Definition tinsert (t : table) (kv : value * nat) : table :=
   match tfind t (fst kv) with Some _ => t | None => t ++ [kv] end.
 Definition tbuild (kvs : list (value * nat)) : table := fold_left tinsert kvs [].
 
+(* ---- an object with a history: t.hash() is computed from the CURRENT member tuple every time it is asked
+   for; the object carries nothing but its members, so there is no place where an earlier hash could survive.
+   A history is a sequence of "take the hash" (directly, or because a container asks for it), "assign one member
+   in place" and "assign the whole object"; `seen` collects the hash words handed out along the way ---- *)
+Inductive hop : Type :=
+| HHash                          (* nitro::lang::hash(x) / insert, find, count with x as the key *)
+| HSet (i : nat) (v : value)     (* x.member_i = v  (also through the reference tuple as_tuple() returns) *)
+| HAssign (l : list value).      (* x = y, x = std::move(y): all members replaced *)
+Fixpoint hrun (ops : list hop) (members : list value) (seen : list N) : list value * list N :=
+  match ops with
+  | [] => (members, seen)
+  | HHash :: r => hrun r members (seen ++ [hash (VObj members)])
+  | HSet i v :: r => hrun r (upd members i (fun _ => v)) seen
+  | HAssign l :: r => hrun r l seen
+  end.
+Definition is_mutation (o : hop) : bool := match o with HHash => false | _ => true end.
+
 End Value.
 
 Arguments VLeaf {leaf}.
@@ -142,3 +160,6 @@ Arguments VVariant {leaf}.
 Arguments VPtr {leaf}.
 Arguments VObj {leaf}.
 Arguments members {leaf}.
+Arguments HHash {leaf}.
+Arguments HSet {leaf}.
+Arguments HAssign {leaf}.
